@@ -23,6 +23,13 @@ pub open spec fn lex_seq<T>(c: spec_fn(T, T) -> core::cmp::Ordering, s: Seq<T>, 
 }
 pub open spec fn str_ord(a: Seq<char>, b: Seq<char>) -> core::cmp::Ordering { lex_seq(|x: char, y: char| char_ord(x, y), a, b) }
 
+pub open spec fn ole<T>(c: spec_fn(T, T) -> core::cmp::Ordering, a: T, b: T) -> bool { c(a, b) != core::cmp::Ordering::Greater }
+/// a total preorder given as a three-way comparison: swapping the arguments flips the answer, and <= is transitive
+pub open spec fn total_preorder<T>(c: spec_fn(T, T) -> core::cmp::Ordering) -> bool {
+    &&& forall|a: T, b: T| #[trigger] c(b, a) == ord_flip(c(a, b))
+    &&& forall|a: T, b: T, d: T| #[trigger] ole(c, a, b) && #[trigger] ole(c, b, d) ==> ole(c, a, d)
+}
+
 pub trait VxOrd {
     spec fn ord_spec(&self, other: &Self) -> core::cmp::Ordering;
     fn vx_cmp_m(&self, other: &Self) -> (r: core::cmp::Ordering)
